@@ -143,7 +143,7 @@ func (x *Exec) selectOp(st *State, fr *Frame, b *ssa.BasicBlock, idx int, v *ssa
 	}
 	n := len(v.States)
 	tupT := v.Type().(*types.Tuple)
-	mk := func(st2 *State, chosen int, recvOk Term, recvVal Val) {
+	mk := func(st2 *State, chosen int, recvOk Term, recvVal Val, chosenCh Term) {
 		tv := &TupleVal{V: []Val{TInt(int64(chosen)), recvOk}}
 		ri := 0
 		for i, s := range v.States {
@@ -158,7 +158,7 @@ func (x *Exec) selectOp(st *State, fr *Frame, b *ssa.BasicBlock, idx int, v *ssa
 			}
 		}
 		st2.top().regs[v] = tv
-		x.logCall(st2, "select.case", []Val{TInt(int64(chosen))}, []types.Type{types.Typ[types.Int]})
+		x.logCall(st2, "select.case", []Val{TInt(int64(chosen)), chosenCh}, []types.Type{types.Typ[types.Int], types.Typ[types.Int]})
 		x.runFrom(st2, b, idx+1)
 	}
 	for i := 0; i < n; i++ {
@@ -174,14 +174,14 @@ func (x *Exec) selectOp(st *State, fr *Frame, b *ssa.BasicBlock, idx int, v *ssa
 		et := under(s.Chan.Type()).(*types.Chan).Elem()
 		if s.Dir == types.RecvOnly {
 			val, ok := x.chanRecv(st2, ch, et)
-			mk(st2, i, ok, val)
+			mk(st2, i, ok, val, ch)
 		} else {
 			x.chanSend(st2, ch, x.get(st2, fr2, s.Send), et, "select")
-			mk(st2, i, TFalse, nil)
+			mk(st2, i, TFalse, nil, ch)
 		}
 	}
 	if !v.Blocking {
-		mk(st, -1, TFalse, nil)
+		mk(st, -1, TFalse, nil, TInt(0))
 	}
 	return true
 }
